@@ -23,6 +23,10 @@ Theorem string_refs_valid fo s out : resolve_string fo s = Ok out -> wf_graph (f
   forall k v, In v (ez_list (fo_mol out) k) -> In v (ez_list (fo_m5 out) k) \/ tuple_ok (fo_mol out) k v = true.
 Proof. intros H. destruct (resolve_string_is_step _ _ _ H) as (fd & prev & car & Hs). exact (returned_refs_valid _ _ _ _ _ Hs). Qed.
 
+Theorem string_refs_valid_all fo s out : resolve_string fo s = Ok out ->
+  forall k v, In v (ez_list (fo_mol out) k) -> In v (ez_list (fo_m5 out) k) \/ tuple_ok (fo_mol out) k v = true.
+Proof. intros H. destruct (resolve_string_is_step _ _ _ H) as (fd & prev & car & Hs). exact (returned_refs_valid_all _ _ _ _ _ Hs). Qed.
+
 Definition fo0 : float_oracle := fo_of_table [].
 (** node attributes the C15 oracle looks at *)
 Definition keep (g : graph) : graph :=
